@@ -7,7 +7,7 @@
    The main statement holds for every class and every input (no domain restriction since the
    empty-string alias was repaired in /repo 7108448). *)
 From Coq Require Import List String Ascii ZArith Bool.
-From Verif Require Import Regex PyK PyK_strat PyK_alias FieldDecl FieldDeclProofs KeyModel KeyImpl KeyProofs KeyDecl KeyCfg KeyNested KeyRewrite KeyHook KeyDc KeyDcDecl KeyDeep.
+From Verif Require Import Regex PyK PyK_strat PyK_alias FieldDecl FieldDeclProofs KeyModel KeyImpl KeyProofs KeyDecl KeyCfg KeyNested KeyRewrite KeyHook KeyDc KeyDcDecl KeyDeep KeyDeepHook.
 From VerifGen Require Import K4 K5.
 Import ListNotations.
 Open Scope string_scope.
@@ -287,6 +287,37 @@ Example C09_nonvacuous_deep :
   /\ deep_impl 10 [n2; n1; k] 2 [(KeyS "x", VD [(KeyS "m", VD [(KeyS "aq", VL [VD [(KeyS "ar", VZ 1); (KeyS "junk", VZ 0)]])])])]
   = DInvalid "x".
 Proof. split; vm_compute; reflexivity. Qed.
+
+(* ---- __pre_deserialize__ on nested classes: each class's hook rewrites the mapping handed to that class, at any
+   depth and inside containers, before that class's key rules and extra-key check ---- *)
+Theorem C09_deep_hooks : forall fuel tb hs k d, deeph_impl fuel tb hs k d = deeph_ref fuel tb hs k d.
+Proof. exact deeph_impl_eq_ref. Qed.
+Print Assumptions C09_deep_hooks.
+
+Theorem C09_deep_no_hooks : forall rd ex fuel tb k d, deeph rd ex fuel tb [] k d = deep rd ex fuel tb k d.
+Proof. exact deeph_no_hooks. Qed.
+Print Assumptions C09_deep_no_hooks.
+
+Theorem C09_inner_hook : forall rd ex fu tb hs i nc d,
+  nth_error tb i = Some nc ->
+  dech rd ex (S fu) tb hs (TCls i) (VD d)
+  = match obj rd ex (dech rd ex fu tb hs) nc (tapply_hook (hook_of hs i) d) with
+    | DInst vs => Some (RObj vs) | _ => None end.
+Proof. exact inner_hook_applies. Qed.
+Print Assumptions C09_inner_hook.
+
+(* N: r alias "ar", forbid_extra_keys, hook renames "legacy" to "ar".  K: x: List[N]; K's own hook drops "junk".
+   Inside the list "legacy" is accepted (N's hook), at the top it is not K's business; K's hook does not reach
+   the elements: "junk" inside an element is an extra key of N and invalidates x *)
+Example C09_nonvacuous_deep_hooks :
+  let n := mkN (mkC [mkF "r" (Some "ar") None false] [] false true None) [] in
+  let k := mkN (mkC [mkF "x" None None false] [] false true None) [("x", TList (TCls 0))] in
+  let hs := [Some [HRename (KeyS "legacy") (KeyS "ar")]; Some [HDrop (KeyS "junk")]] in
+  deeph_ref 10 [n; k] hs 1 [(KeyS "x", VL [VD [(KeyS "legacy", VZ 1)]; VD [(KeyS "ar", VZ 2)]]); (KeyS "junk", VZ 0)]
+  = DInst [("x", Some (RList [RObj [("r", Some (RZ 1))]; RObj [("r", Some (RZ 2))]]))]
+  /\ deeph_impl 10 [n; k] hs 1 [(KeyS "x", VL [VD [(KeyS "ar", VZ 1); (KeyS "junk", VZ 0)]])] = DInvalid "x"
+  /\ deeph_ref 10 [n; k] [None; None] 1 [(KeyS "x", VL [VD [(KeyS "legacy", VZ 1)]])] = DInvalid "x".
+Proof. repeat split; vm_compute; reflexivity. Qed.
 
 (* ---- arbitrary MROs (diamonds): a model of CPython's dataclass walk and of get_type_hints ---- *)
 
